@@ -618,6 +618,7 @@ def run(cx, chk):
     if "C04.cursor" in chk.rules:
         chk.rules["C01.entry.cursor"] = chk.rules.pop("C04.cursor")
     c05.check_state_origin(cx, chk, "C01.entry")
+    c05.check_entry_wrappers(cx, chk, "C01.entry")
     try:
         from . import lift_rules
     except ImportError:
